@@ -31,7 +31,7 @@ os.environ.setdefault('PYTHONWARNINGS', 'ignore')
 
 QUICK_SCALE = int(os.environ.get('SSJ_QUICK_SCALE', '3'))      # quick budgets of the table below are multiplied by this
 ALLOWED_AXIOMS = {'propext', 'Classical.choice', 'Quot.sound'}
-FORBIDDEN = re.compile(r'\b(sorry|admit|native_decide|bv_decide|implemented_by|unsafe)\b|^\s*axiom\s|maxHeartbeats\s+0\b', re.M)
+FORBIDDEN = re.compile(r'\b(sorry|admit|native_decide|bv_decide|implemented_by|unsafe)\b|^\s*axiom\s|maxHeartbeats\s+0\b|@\[\s*extern', re.M)
 
 # ---------------------------------------------------------------- per-property configuration
 # suites: (name, quick n, thorough n, kwargs)   oracles: (name, quick n, thorough n)
@@ -334,6 +334,10 @@ def match_known(v, known):
             # py_stringmatching's own Levenshtein disagrees with the true distance on the very pair the violation is about
             if case.get('py_stringmatching_levenshtein') is not None and case.get('true_levenshtein') != case.get('py_stringmatching_levenshtein') \
                     and any(ord(ch) > 255 for x in case.get('pair_strings', []) for ch in x):
+                return k
+        elif m.get('kind') == 'converter_extension_dtype':
+            if case.get('entry') == 'converter' and str(case.get('dtype', ''))[:1].isupper() and \
+                    str(case.get('dtype', '')).rstrip('0123456789') in ('Int', 'UInt', 'Float') and 'TypeError' in v.get('what', ''):
                 return k
         elif m.get('kind') == 'tiny_threshold':
             t = case.get('threshold')
